@@ -10,10 +10,18 @@ def Closed (nodes : List Lazy.Node) : Prop := ∀ (i : Nat) (nd : Lazy.Node), no
 def MemoSound (fs : List Func) (kw : List (String × Val)) (s : LSt) : Prop :=
   ∀ p a, alookup kw p = none → alookup s.memo p = some a → ∃ v k, den s.nodes a = some v ∧ compose fs kw k p = .ok v
 
-/-- every entry of the task graph's cache stands for the result of its function under the current keyword arguments -/
-def CacheSound (fs : List Func) (kw : List (String × Val)) (s : LSt) : Prop :=
-  ∀ g, s.tg = some g → ∀ key a, (key, a) ∈ g.cache → ∀ f o, producer fs o = some f → key.1 = f.outputs →
-    ∃ k vals, composeArgsWith (compose fs kw k) fs kw f f.params = .ok vals ∧ den s.nodes a = some (result f vals)
+/-- the entries of the caches a lazy call can consult: the task graph's and the pipeline's own -/
+def entries (s : LSt) : List (Key × LArg) :=
+  (match s.tg with | some g => g.cache | none => []) ++ (match s.own with | some c => c | none => [])
+
+/-- a cache entry is right for EVERY call that can find it: whatever keyword arguments compute this key for a function,
+    the entry stands for the result of that function on the composition of its arguments under those keyword arguments -/
+def EntryOK (fs : List Func) (nodes : List Lazy.Node) (key : Key) (a : LArg) : Prop :=
+  ∀ f o kw K, producer fs o = some f → cacheKey fs kw f o = some K → keq key K = true →
+    ∃ k vals, composeArgsWith (compose fs kw k) fs kw f f.params = .ok vals ∧ den nodes a = some (result f vals)
+
+/-- every entry of the task graph's cache and of the pipeline's own cache is right (for all keyword arguments) -/
+def CacheSound (fs : List Func) (s : LSt) : Prop := ∀ key a, (key, a) ∈ entries s → EntryOK fs s.nodes key a
 
 /-- the recorded graph: its nodes exist, and its edges are exactly the lazy arguments of its nodes -/
 def GInv (s : LSt) : Prop :=
@@ -24,7 +32,7 @@ def GInv (s : LSt) : Prop :=
 structure Inv (fs : List Func) (kw : List (String × Val)) (s : LSt) : Prop where
   closed : Closed s.nodes
   memo : MemoSound fs kw s
-  cache : CacheSound fs kw s
+  cache : CacheSound fs s
   graph : GInv s
 
 /-- what every step of a lazy run does to the session: nodes are only added, nothing is evaluated, a task graph stays active -/
@@ -59,12 +67,10 @@ theorem mkNode_tg (nd : Lazy.Node) (s : LSt) : (mkNode nd s).2.tg =
     | none => none
     | some g => some { g with gnodes := g.gnodes ++ [s.nodes.length], edges := g.edges ++ nd.refs.map (fun a => (a, s.nodes.length)) } := rfl
 
-theorem mkNode_cache (nd : Lazy.Node) (s : LSt) (g' : TG) (h : (mkNode nd s).2.tg = some g') :
-    ∃ g, s.tg = some g ∧ g'.cache = g.cache := by
-  rw [mkNode_tg] at h
-  cases hs : s.tg with
-  | none => rw [hs] at h; cases h
-  | some g => rw [hs] at h; simp at h; exact ⟨g, rfl, by rw [← h]⟩
+theorem mkNode_entries (nd : Lazy.Node) (s : LSt) : entries (mkNode nd s).2 = entries s := by
+  unfold entries
+  rw [mkNode_tg]
+  cases s.tg <;> rfl
 
 theorem mkNode_step (nd : Lazy.Node) (s : LSt) : Step s (mkNode nd s).2 := by
   refine ⟨⟨[nd], rfl⟩, rfl, ?_⟩
@@ -107,19 +113,23 @@ theorem memoSound_ext {s s' : LSt} (hm : MemoSound fs kw s) (hmemo : s'.memo = s
   obtain ⟨v, k, hd, hc⟩ := hm p a hk hp
   exact ⟨v, k, by rw [hn]; exact den_ext ext hd, hc⟩
 
-theorem cacheSound_ext {s s' : LSt} (hc : CacheSound fs kw s) (ext : List Lazy.Node) (hn : s'.nodes = s.nodes ++ ext)
-    (hcache : ∀ g', s'.tg = some g' → ∃ g, s.tg = some g ∧ g'.cache = g.cache) : CacheSound fs kw s' := by
-  intro g' hg' key a hmem f o hf hkey
-  obtain ⟨g, hg, hcg⟩ := hcache g' hg'
-  rw [hcg] at hmem
-  obtain ⟨k, vals, h1, h2⟩ := hc g hg key a hmem f o hf hkey
-  exact ⟨k, vals, h1, by rw [hn]; exact den_ext ext h2⟩
+theorem entryOK_ext {nodes : List Lazy.Node} {key : Key} {a : LArg} (h : EntryOK fs nodes key a) (ext : List Lazy.Node) :
+    EntryOK fs (nodes ++ ext) key a := by
+  intro f o kw K hf hK hq
+  obtain ⟨k, vals, h1, h2⟩ := h f o kw K hf hK hq
+  exact ⟨k, vals, h1, den_ext ext h2⟩
+
+theorem cacheSound_ext {s s' : LSt} (hc : CacheSound fs s) (ext : List Lazy.Node) (hn : s'.nodes = s.nodes ++ ext)
+    (hcache : ∀ e ∈ entries s', e ∈ entries s) : CacheSound fs s' := by
+  intro key a hmem
+  rw [hn]
+  exact entryOK_ext (hc key a (hcache _ hmem)) ext
 
 theorem mkNode_inv (nd : Lazy.Node) (s : LSt) (hi : Inv fs kw s) (hr : ∀ j ∈ nd.refs, j < s.nodes.length) :
     Inv fs kw (mkNode nd s).2 :=
   ⟨by rw [mkNode_nodes]; exact closed_snoc hi.closed hr,
    memoSound_ext hi.memo (mkNode_memo nd s) [nd] (mkNode_nodes nd s),
-   cacheSound_ext hi.cache [nd] (mkNode_nodes nd s) (mkNode_cache nd s),
+   cacheSound_ext hi.cache [nd] (mkNode_nodes nd s) (by rw [mkNode_entries]; exact fun _ h => h),
    mkNode_ginv nd s hi.graph⟩
 
 /-! ### `mkPicks` / `updateAll` -/
@@ -127,14 +137,14 @@ theorem mkNode_inv (nd : Lazy.Node) (s : LSt) (hi : Inv fs kw s) (hr : ∀ j ∈
 theorem mkPicks_spec (f : Func) (r : LArg) (R : Val) : ∀ (names : List String) (s : LSt), Inv fs kw s → den s.nodes r = some R →
     Step s (mkPicks f r names s).2 ∧ Inv fs kw (mkPicks f r names s).2 ∧ (mkPicks f r names s).2.memo = s.memo ∧
     (mkPicks f r names s).2.used = s.used ∧
-    (∀ g', (mkPicks f r names s).2.tg = some g' → ∃ g, s.tg = some g ∧ g'.cache = g.cache) ∧
+    entries (mkPicks f r names s).2 = entries s ∧
     (∀ o a, alookup (mkPicks f r names s).1 o = some a →
       o ∈ names ∧ ∀ w, pickVal f.outputs o R = some w → den (mkPicks f r names s).2.nodes a = some w) := by
   intro names
   induction names with
   | nil =>
     intro s hi _
-    exact ⟨Step.refl s, hi, rfl, rfl, fun g' h => ⟨g', h, rfl⟩, fun o a h => by simp [mkPicks, alookup] at h⟩
+    exact ⟨Step.refl s, hi, rfl, rfl, rfl, fun o a h => by simp [mkPicks, alookup] at h⟩
   | cons n names ih =>
     intro s hi hr
     simp only [mkPicks]
@@ -147,10 +157,7 @@ theorem mkPicks_spec (f : Func) (r : LArg) (R : Val) : ∀ (names : List String)
     have hr1 : den (mkNode (.pick f r n) s).2.nodes r = some R := by rw [mkNode_nodes]; exact den_ext _ hr
     obtain ⟨hs2, hi2, hm2, hu2, hc2, hl2⟩ := ih (mkNode (.pick f r n) s).2 hi1 hr1
     refine ⟨(mkNode_step _ s).trans hs2, hi2, hm2.trans (mkNode_memo _ s), hu2.trans (mkNode_used _ s), ?_, ?_⟩
-    · intro g' hg'
-      obtain ⟨g1, hg1, hcg1⟩ := hc2 g' hg'
-      obtain ⟨g, hg, hcg⟩ := mkNode_cache _ s g1 hg1
-      exact ⟨g, hg, hcg1.trans hcg⟩
+    · exact hc2.trans (mkNode_entries _ s)
     · intro o a hl
       simp only [alookup] at hl
       split at hl
@@ -173,13 +180,14 @@ theorem mkPicks_spec (f : Func) (r : LArg) (R : Val) : ∀ (names : List String)
 theorem updateAll_spec (f : Func) (r : LArg) (vals : List (String × Val)) (s : LSt) (hi : Inv fs kw s)
     (hr : den s.nodes r = some (result f vals)) :
     Step s (updateAll f r s) ∧ (updateAll f r s).used = s.used ∧
-    Closed (updateAll f r s).nodes ∧ CacheSound fs kw (updateAll f r s) ∧ GInv (updateAll f r s) ∧
+    Closed (updateAll f r s).nodes ∧ CacheSound fs (updateAll f r s) ∧ GInv (updateAll f r s) ∧
+    entries (updateAll f r s) = entries s ∧
     ∃ newm, (updateAll f r s).memo = newm ++ s.memo ∧
       ∀ o a, alookup newm o = some a → ∃ w, alookup (outVals f vals) o = some w ∧ den (updateAll f r s).nodes a = some w := by
   unfold updateAll
   split
   · next o ho =>
-    refine ⟨Step.refl s, rfl, hi.closed, hi.cache, hi.graph, [(o, r)], rfl, ?_⟩
+    refine ⟨Step.refl s, rfl, hi.closed, hi.cache, hi.graph, rfl, [(o, r)], rfl, ?_⟩
     intro o' a hl
     simp only [alookup] at hl
     split at hl
@@ -190,7 +198,7 @@ theorem updateAll_spec (f : Func) (r : LArg) (vals : List (String × Val)) (s : 
     · simp at hl
   · next hne =>
     obtain ⟨hs, hi2, hm, hu, hc, hl⟩ := mkPicks_spec (fs := fs) (kw := kw) f r (result f vals) f.outputs s hi hr
-    refine ⟨hs, hu, hi2.closed, ?_, hi2.graph, (mkPicks f r f.outputs s).1, by simp only [hm], ?_⟩
+    refine ⟨hs, hu, hi2.closed, ?_, hi2.graph, hc, (mkPicks f r f.outputs s).1, by simp only [hm], ?_⟩
     · exact hi2.cache
     · intro o a hla
       obtain ⟨hmem, hden⟩ := hl o a hla
